@@ -155,6 +155,96 @@ def oracle(ctx, case, jcase):
                          detail={'nested': repr(got)[:1500], 'standalone': repr(want)[:1500]})
 
 
+OWN_TRANSFORM = ('coerce', 'default', 'default_setter', 'rename', 'rename_handler', 'readonly', 'keysrules')
+
+
+def oracle_normalize(ctx, case, jcase):
+    """the normalization half of processing is compositional as well: the errors recorded beneath a container field while
+    normalizing, and the normalized value of the field, are those of normalizing the sub-document on its own"""
+    schema, doc, cfg = case['schema'], case['doc'], case.get('cfg', {})
+    if any(isinstance(r, dict) and ('rename' in r or 'rename_handler' in r) for r in schema.values()):
+        return
+    out = real.run_normalized(case)
+    if out.exc is not None or not isinstance(out.document, dict):
+        return
+    for f, rules in schema.items():
+        if not isinstance(rules, dict) or f not in doc or doc[f] is None or any(k in rules for k in OWN_TRANSFORM):
+            continue
+        value = doc[f]
+        checks = []
+        if isinstance(value, dict) and isinstance(rules.get('schema'), dict) and 'valuesrules' not in rules:
+            over = {'allow_unknown': rules.get('allow_unknown', cfg.get('allow_unknown', False)),
+                    'purge_unknown': rules.get('purge_unknown', cfg.get('purge_unknown', False)),
+                    'require_all': rules.get('require_all', cfg.get('require_all', False))}
+            checks.append(('schema_map', rules['schema'], value, over, lambda r: r))
+        elif isinstance(value, dict) and isinstance(rules.get('valuesrules'), dict) and 'schema' not in rules \
+                and 'allow_unknown' not in rules and 'purge_unknown' not in rules and not isinstance(cfg.get('allow_unknown'), dict):
+            checks.append(('valuesrules', {k: rules['valuesrules'] for k in value}, value, {}, lambda r: r))
+        elif isinstance(value, (list, tuple)) and isinstance(rules.get('schema'), dict):
+            checks.append(('schema_seq', {i: rules['schema'] for i in range(len(value))}, dict(enumerate(value)), {},
+                           lambda r, t=type(value): t(r.values())))
+        elif isinstance(value, (list, tuple)) and 'schema' not in rules and isinstance(rules.get('items'), (list, tuple)) \
+                and len(rules['items']) == len(value):
+            checks.append(('items', dict(enumerate(rules['items'])), dict(enumerate(value)), {},
+                           lambda r, t=type(value): t(r.values())))
+        for kind, sch, sub, over, back in checks:
+            c = copy.deepcopy(cfg)
+            c.update(over)
+            try:
+                v = real.cls_of(case)(copy.deepcopy(sch), **c)
+                res = v.normalized(copy.deepcopy(sub), always_return_document=True)
+                alone = sorted(((tuple(codec.canon_key(k) for k in e.document_path), e.code) for e in real.flatten(v._errors)
+                                if not codec.is_group(e)), key=repr)
+                alone_val = codec.canon_val(back(res))
+            except Exception as e:
+                ctx.dist('skipped', 'standalone normalization raised ' + type(e).__name__)
+                import os
+                if os.environ.get('DBG10') and type(e).__name__ == 'AttributeError':
+                    import traceback; traceback.print_exc(); print(kind, sch, sub, c)
+                continue
+            nested = sorted(((tuple(codec.canon_key(k) for k in e.document_path[1:]), e.code) for e in real.flatten(out.errors)
+                             if not codec.is_group(e) and len(e.document_path) > 1 and e.document_path[0] == f), key=repr)
+            ctx.dist('compared', 'normalization:' + kind)
+            if f not in out.document:
+                got_val = ('missing',)
+            else:
+                got_val = codec.canon_val(out.document[f])
+            if nested != alone or got_val != alone_val:
+                ctx.fail('C10 oracle: normalization beneath %r (%s) differs from normalizing the sub-document on its own'
+                         % (f, kind), dict(jcase, field=codec.enc_key(f), kind='normalization:' + kind),
+                         detail={'nested errors': repr(nested)[:800], 'standalone errors': repr(alone)[:800],
+                                 'nested value': repr(got_val)[:600], 'standalone value': repr(alone_val)[:600]})
+                return
+
+
+def oracle_registries(ctx, case, jcase, rng):
+    """the registries are part of the configuration the child validators inherit: with parts of the schema moved into
+    registries bound to the validator (the module-level ones stay empty), the errors — beneath every field too — are
+    those of the inline schema"""
+    from .. import rewrite
+    from . import c14
+    refschema, rs, ss, applied = rewrite.to_references(rng, case['schema'], p=0.6)
+    if not applied:
+        return
+    want = real.run_validate(case, normalize=False)
+    if want.exc is not None:
+        return
+    try:
+        v = c14.with_registries(case, refschema, rs, ss, True)
+        got = c14.outcome(v, case, False)
+    except Exception as e:
+        got = ('raised', type(e).__name__)
+    finally:
+        real.clear_global_state()
+    ctx.dist('compared', 'validator-bound registries')
+    w = ('ok', want.ret, codec.canon_errs(want.errors, 1), codec.canon_val(want.document))
+    if got != w:
+        ctx.fail('C10 oracle: with definitions in registries bound to the validator, the errors differ from those of the inline '
+                 'schema (child validators must inherit the registries)',
+                 dict(jcase, referenced=codec.enc_val(refschema), rules_sets=codec.enc_val(rs), schemas=codec.enc_val(ss)),
+                 detail={'inline': repr(w)[:1200], 'referenced': repr(got)[:1200]})
+
+
 def wrap(kind, schema, doc):
     if kind == 'schema':
         return {'n': {'type': 'dict', 'schema': schema}}, {'n': doc}
@@ -210,7 +300,7 @@ def run(ctx, n):
                        'per-field overrides x documents x update; oracle: child errors beneath every top-level container field vs a '
                        'standalone real validation of the sub-document with prefixed paths; port: validate0; non-trivial = at least '
                        'one container field compared; distinct by canonical case')
-    profiles = ['deep', 'validate', 'deep', 'of', 'update']
+    profiles = ['deep', 'validate', 'deep', 'of', 'update', 'normalize']
     import random
     with Driver() as drv:
         oracle_root(ctx, None, None, None)
@@ -220,6 +310,9 @@ def run(ctx, n):
             jcase = real.enc_case(case)
             before = dict(ctx.cov['distribution'].get('compared', {}))
             oracle(ctx, case, jcase)
+            oracle_normalize(ctx, case, jcase)
+            if i % 3 == 0:
+                oracle_registries(ctx, case, jcase, random.Random(ctx.seed * 61 + i))
             st, detail = c01.compare(ctx, drv, case)
             if st == 'mismatch':
                 ctx.port_mismatch('validate0', jcase, detail['model'], detail['real'], 'validate0 port')
@@ -228,10 +321,13 @@ def run(ctx, n):
 
 
 def search(ctx, n):
-    for i, prof, case, g in cases.stream(ctx.seed + 7919, n, ['deep', 'validate']):
+    import random
+    for i, prof, case, g in cases.stream(ctx.seed + 7919, n, ['deep', 'validate', 'normalize']):
         if cases.accepted(case) is not True:
             continue
         before = len(ctx.failures)
         oracle(ctx, case, real.enc_case(case))
+        oracle_normalize(ctx, case, real.enc_case(case))
+        oracle_registries(ctx, case, real.enc_case(case), random.Random(ctx.seed * 61 + i))
         if len(ctx.failures) > before:
             return
